@@ -23,6 +23,9 @@ def c01(tier, seed):
         S("Sunflower", "ClayLoam", seed=seed + 10, gw={"water_table": "Y", "method": "Variable", "dates": ["2001/04/20", "2001/07/01", "2001/09/30"], "values": [2.2, 0.8, 1.9]}, irr={"method": 4, "kw": {"NetIrrSMT": 50}}, iwc={"wc_type": "Pct", "value": [40]}),
         S("Cotton", "SiltClay", seed=seed + 11, regime="hot", field={"sr_inhb": True}, irr={"method": 1, "kw": {"SMT": [50, 60, 70, 40], "MaxIrr": 15}}),
         S("MaizeGDD", "LoamySand", seed=seed + 12, regime="hot", lead=25, off_season=True, fallow={"mulches": True, "mulch_pct": 100, "f_mulch": 0.8}),
+        # impeding subsoil + saturation on non-uniform compartment grids (custom, and the grid the model deepens for deep roots)
+        S("Tomato", seed=seed + 13, soil_spec=L.LAYERED_SOILS["impeding_uneven"], iwc={"value": ["SAT", "SAT"], "depth_layer": [1, 2]}, events=L.storm_events(y, (4, 20), (120, 60, 60, 60))),
+        S("Maize", seed=seed + 14, soil_spec=L.LAYERED_SOILS["low_ksat"], iwc={"value": ["SAT", "SAT"], "depth_layer": [1, 2]}, regime="wet"),
     ]
     if tier == "thorough":
         scs += L.diverse(rnd, 240, focus="no_restrictive")
@@ -80,6 +83,8 @@ def c03(tier, seed):
         S("Cotton", "SandyLoam", seed=seed + 8, regime="hot", irr={"method": 5, "kw": {"depth": 25, "MaxIrr": 25}}, field={"bunds": True, "z_bund": 0.03}),
         S("Quinoa", "Silt", seed=seed + 9, iwc={"wc_type": "Num", "value": [0.2]}, events=L.drought_events(y, (4, 20), 150), regime="arid"),
         S("Sunflower", seed=seed + 10, soil_spec=L.LAYERED_SOILS["uneven_dz"], events=storms, iwc={"wc_type": "Pct", "value": [100]}),
+        S("Potato", seed=seed + 11, soil_spec=L.LAYERED_SOILS["impeding_uneven"], iwc={"value": ["SAT", "SAT"], "depth_layer": [1, 2]}, events=storms),
+        S("Cotton", seed=seed + 12, regime="wet", soil_spec=L.LAYERED_SOILS["low_ksat"], iwc={"value": ["FC", "SAT"], "depth_layer": [1, 2]}, events=storms),
     ]
     scs += L.diverse(rnd, 220 if tier == "thorough" else 5, focus="no_restrictive")
     return scs
